@@ -26,6 +26,7 @@ class RefBase:
         self.nodes = {}        # label -> metadata (dict or Alt)
         self.edges = {}        # key -> [weight, metadata (dict or Alt)]
         self.hg_required = {}  # user-set hypergraph metadata fields that must be visible
+        self.hg_absent = set()  # fields dropped by a wholesale set_hypergraph_metadata
         self.cleared = False
 
     # -- to be provided by subclasses
@@ -123,6 +124,7 @@ class RefBase:
         self.nodes = {}
         self.edges = {}
         self.hg_required = {}  # after clear() earlier fields are unconstrained
+        self.hg_absent = set()
         self.cleared = True
         return True
 
@@ -336,6 +338,8 @@ def resolve(ad, aop, model, U):
             c["field"] = _present_field(model.nodes[c["n"]], aop)
     elif k == "set_attr_hg":
         c["field"], c["value"] = aop["field"], aop["value"]
+    elif k == "set_hg_metadata":
+        c["meta"] = aop["meta"]
     elif k in ("clear", "copy"):
         pass
     else:
@@ -421,6 +425,11 @@ def apply_model(ad, m, c):
         return True
     if k == "set_attr_hg":
         m.hg_required[c["field"]] = dc(c["value"])
+        m.hg_absent.discard(c["field"])
+        return True
+    if k == "set_hg_metadata":
+        m.hg_absent = (m.hg_absent | set(m.hg_required)) - set(c["meta"])
+        m.hg_required = dc(c["meta"])
         return True
     if k == "clear":
         return m.clear()
@@ -462,6 +471,8 @@ def apply_real(ad, h, c):
         ad.r_remove_attr_edge(h, c["e"], c["field"])
     elif k == "set_attr_hg":
         h.set_attr_to_hypergraph_metadata(c["field"], dc(c["value"]))
+    elif k == "set_hg_metadata":
+        h.set_hypergraph_metadata(dc(c["meta"]))
     elif k == "clear":
         h.clear()
     else:
@@ -538,6 +549,10 @@ def check_against_model(ad, h, model, U, probes, step_desc):
         if not (isinstance(hm, dict) and f in hm and hm[f] == v):
             raise Violation("after %s: hypergraph metadata field %r expected %r, metadata is %r"
                             % (step_desc, f, v, hm))
+    for f in model.hg_absent:
+        if isinstance(hm, dict) and f in hm:
+            raise Violation("after %s: hypergraph metadata field %r survived a wholesale "
+                            "set_hypergraph_metadata: %r" % (step_desc, f, hm))
     ad.collapse(model, obs)
     obs["__hg_meta__"] = hm
     # bulk metadata listings: nothing of a removed node / hyperedge may linger
@@ -705,7 +720,8 @@ def weight_for(weighted):
 KINDS = (["add_edge"] * 8 + ["add_edges"] * 3 + ["add_node"] * 2 + ["add_nodes"]
          + ["remove_edge"] * 4 + ["remove_edges"] * 2 + ["remove_node"] * 4 + ["remove_nodes"] * 2
          + ["set_weight"] * 2 + ["set_node_metadata", "set_edge_metadata", "set_attr_node",
-            "remove_attr_node", "set_attr_edge", "remove_attr_edge", "set_attr_hg"]
+            "remove_attr_node", "set_attr_edge", "remove_attr_edge", "set_attr_hg",
+            "set_hg_metadata"]
          + ["copy"])
 
 
@@ -758,6 +774,8 @@ def op_strategy(draw, weighted, kinds, t_strategy=None, clear=True):
         op.update(edge=draw(e_exist), field=draw(field), fpick=draw(sel))
     elif k == "set_attr_hg":
         op.update(field=draw(field), value=draw(S.json_values))
+    elif k == "set_hg_metadata":
+        op.update(meta=draw(S.metadata()))
     return op
 
 
